@@ -38,7 +38,7 @@ def states_of(sc, obs):
             amt, st = sx.q(o[0]), [sx.bnd(b) for b in o[1]]
         elif t in (3, 4, 5):
             amt, st = sx.q(o[1]), [sx.bnd(b) for b in o[2]]
-        elif t in (7, 8, 10):
+        elif t in (7, 8, 10, 13):
             amt, st = None, [sx.bnd(b) for b in o[0]]
         else:
             amt, st = None, cur
@@ -109,16 +109,19 @@ def mon_c17_engine(sc, obs):
     if whole_error(obs):
         return None
     kb = sc[1]
+    reg = gen_prop.reachable(kb, sc[2])       # formulae in the model: everything reachable from what add_knowledge received so far
     for n, (op, amt, before, after, raw) in enumerate(states_of(sc, obs)):
         if after is None:
             continue
+        if op[0] == 13:
+            reg |= gen_prop.reachable(kb, [op[1]])
         for i, (l, u) in enumerate(after):
             if not (0 <= l <= 1 and 0 <= u <= 1):
                 return (f"after op #{n} {op}: bounds of object {i} in [0,1]", f"({l}, {u})", None)
         if op[0] == 9:
-            exp = any(crossed(sx.q(kb[i][2][0]), l, u) for i, (l, u) in enumerate(after))
-            if bool(raw[0]) != exp:
-                return (f"op #{n}: has_contradiction() == {exp} (some formula crossed outside tolerance)", f"{bool(raw[0])}", None)
+            who = [i for i, (l, u) in enumerate(after) if i in reg and crossed(sx.q(kb[i][2][0]), l, u)]
+            if bool(raw[0]) != bool(who):
+                return (f"op #{n}: has_contradiction() == {bool(who)} (formulae of the model with crossed bounds outside the tolerance: {who})", f"{bool(raw[0])}", None)
     return None
 
 
@@ -223,6 +226,9 @@ def c17_engine_part(ctx):
     scs, meta = k3_batch(ctx, "c17", n, with_has_contra=True)
     run_k3(ctx, "K3/K4 propositional engine (+has_contradiction)", scs, ["c17_engine"])
     ctx.cov["engine_distribution"] = dist(meta)
+    scs2, meta2 = gen_prop.gen_k3_late(ctx.rng("c17late"), 150 if ctx.quick else 2000)
+    run_k3(ctx, "K3 knowledge added over several add_knowledge calls (structural twins, has_contradiction between the calls)", scs2, ["c17_engine"])
+    ctx.cov["late_distribution"] = dist(meta2)
 
 
 CHECKS = {"C01": check_C01, "C05": check_C05, "C13": check_C13}
